@@ -1215,6 +1215,39 @@ func c18BinaryInner(t *testing.T) {
 				vl.add("c18-text", "psa-dhcpd came up on a configuration file damaged by %q:\n%s", name, f(good))
 			}
 		}
+		// two static entries for the same hardware address, spelled the same way: as text they are two entries of the file; the
+		// parser of the text format folds them into one map entry (the later one wins) before server.New sees anything
+		{
+			atomic.AddInt64(&vl.n, 1)
+			net4 := valid.own.To4()
+			twice := good + fmt.Sprintf("client: { key: \"02:ee:00:00:00:77\" value: { ip: \"%d.%d.%d.%d\" } }\nclient: { key: \"02:ee:00:00:00:77\" value: { dns: \"9.9.9.9\" } }\n",
+				net4[0], net4[1], net4[2], net4[3]^1)
+			if ok, _ := startOn(twice); ok {
+				vl.add("c18-text-duplicate-key", "psa-dhcpd came up on a configuration file that lists the hardware address 02:ee:00:00:00:77 twice (first entry: a static address, second entry: a DNS server); the first entry is dropped silently")
+			}
+			// the same key in other legal dresses of the text format: escapes, single quotes, adjacent strings, angle brackets
+			first := fmt.Sprintf("client: { key: \"02:ee:00:00:00:77\" value: { ip: \"%d.%d.%d.%d\" } }\n", net4[0], net4[1], net4[2], net4[3]^1)
+			for name, second := range map[string]string{
+				"hex-escapes":      "client: { key: \"02:ee:00:00:00:\\x37\\x37\" value: { dns: \"9.9.9.9\" } }\n",
+				"octal-escape":     "client: { key: \"02:ee:00:00:00:7\\067\" value: { dns: \"9.9.9.9\" } }\n",
+				"single-quotes":    "client { key: '02:ee:00:00:00:77' value { dns: \"9.9.9.9\" } }\n",
+				"adjacent-strings": "client: { key: \"02:ee:00:\" \"00:00:77\" value: { dns: \"9.9.9.9\" } }\n",
+				"angle-brackets":   "client < value < dns: \"9.9.9.9\" > key: \"02:ee:00:00:00:77\" >\n",
+			} {
+				atomic.AddInt64(&vl.n, 1)
+				if ok, _ := startOn(good + first + "# in between\n" + second); ok {
+					vl.add("c18-text-duplicate-key", "psa-dhcpd came up on a configuration file that lists the hardware address 02:ee:00:00:00:77 twice, the second time written with %s:\n%s", name, second)
+				}
+			}
+			// and nothing that merely looks like a second entry is refused: the key in a comment, in another client's host name,
+			// in a nested position, or a different key
+			atomic.AddInt64(&vl.n, 1)
+			benign := good + first + "# client: { key: \"02:ee:00:00:00:77\" }\n" +
+				"client: { key: \"02:ee:00:00:00:78\" value: { hostname: \"client: { key: \\\"02:ee:00:00:00:77\\\" }\" } }\n"
+			if ok, lg := startOn(benign); !ok {
+				vl.add("c18-text", "psa-dhcpd refuses a configuration file with two different clients (one key also appears in a comment and inside a string):\n%s\n%s", benign, tailStr(lg, 300))
+			}
+		}
 	}
 	vl.write(t, "c18text", map[string]interface{}{"distinct_nontrivial": int(atomic.LoadInt64(&vl.n)), "histogram": map[string]int{"text-fault": int(atomic.LoadInt64(&vl.n))},
 		"samples": []string{"a configuration server.New accepts, written as text and damaged in 7 ways (unknown field, unterminated string, singular field twice, garbage, cut in the middle, number for string, empty file): the real psa-dhcpd must not come up"}})
